@@ -260,6 +260,27 @@ def check_props_file(pid, workdir):
     return res
 
 
+def run_coqchk(pid):
+    """thorough tier: re-check the compiled property file and everything it depends on with the independent checker"""
+    t0 = time.time()
+    rc, out = sh('cd %s && timeout 3000 coqchk -silent -o -Q . Knee Knee.Props.%s 2>&1' % (COQ, pid), timeout=3100)
+    res = {'ok': False, 'axioms': [], 'log': out[-3000:], 'wall_s': round(time.time() - t0, 1)}
+    if rc != 0 or 'CONTEXT SUMMARY' not in out:
+        return res
+    summ = out.split('CONTEXT SUMMARY', 1)[1]
+    m = re.search(r'\* Axioms:(.*?)\n\s*\n\* Constants/Inductives relying on type-in-type:(.*?)\n\s*\n\* Constants/Inductives relying on unsafe \(co\)fixpoints:(.*?)\n\s*\n\* Inductives whose positivity is assumed:(.*?)\n', summ + '\n\n', flags=re.S)
+    if not m:
+        return res
+    ax = [x.strip() for x in m.group(1).split('\n') if x.strip() and x.strip() != '<none>']
+    res['axioms'] = ax
+    unsafe = [g.strip() for g in (m.group(2), m.group(3), m.group(4)) if g.strip() != '<none>']
+    bad = [a for a in ax if not axiom_ok(a.split()[0])]
+    res['ok'] = not unsafe and not bad
+    if not res['ok']:
+        res['log'] = 'unsafe=%s disallowed axioms=%s' % (unsafe, bad)
+    return res
+
+
 # ---------------------------------------------------------------------------------------------
 # evaluating cases inside Coq
 
@@ -508,7 +529,7 @@ def run_check(prop, tier, seed, replay=None):
     try:
         # ---- 1. proof obligations
         mine = ['Props/%s.v' % pid, prop.judge_module.replace('.', '/') + '.v'] + list(getattr(prop, 'extra_coq', []))
-        whole = (tier == 'thorough') or bool(os.environ.get('VERIF_FULL_BUILD'))
+        whole = bool(os.environ.get('VERIF_FULL_BUILD'))
         ok_build, build_log = build(clean=False, targets=None if whole else mine)
         hyg = source_hygiene(None if whole else dep_closure(mine))
         pr = check_props_file(pid, workdir)
@@ -521,6 +542,11 @@ def run_check(prop, tier, seed, replay=None):
         discharged = obligations - len([f for f in pr['failed']])
         if hyg or not ok_build:
             discharged = 0 if not pr['compiled'] else discharged
+        chk = None
+        if tier == 'thorough' and pr['compiled'] and not os.environ.get('VERIF_NO_COQCHK'):
+            chk = run_coqchk(pid)
+            if not chk['ok']:
+                failed.append('coqchk: ' + chk['log'][-800:])
         proofs_ok = (not failed) and obligations > 0 and pr['compiled']
         extra_ok, extra_info = (True, {})
         if hasattr(prop, 'extra_obligations'):
@@ -627,6 +653,7 @@ def run_check(prop, tier, seed, replay=None):
                 'Python harness: input generation, calling the implementation, oracle tables from the package\'s own public primitives, float.hex() literals',
             ] + list(getattr(prop, 'trusted', [])),
             'theorems': pr['theorems'],
+            'coqchk': ({'ran': True, 'ok': chk['ok'], 'axioms': chk['axioms'], 'wall_s': chk['wall_s']} if chk else {'ran': False}),
             'evaluations': len(cases),
             'distinct_nontrivial': stats['distinct_nontrivial'],
             'rule': getattr(prop, 'rule', ''),
